@@ -388,6 +388,12 @@ func genExecCaseOpt(t *rapid.T, rec *ev.Recorder, opType ast.Operation, saturate
 	if rapid.IntRange(0, 9).Draw(t, "multi") > 0 {
 		wopt.MinServices = 2
 	}
+	if opType == ast.Mutation {
+		wopt.ForceMutations = true
+	}
+	if opType == ast.Subscription {
+		wopt.Subscriptions = true
+	}
 	m := world.Generate(t, wopt)
 	w := m.Build()
 	sopt := world.DefaultStoreOptions()
